@@ -227,6 +227,12 @@ impl<T> Pool<T> {
     /// See [`PoolError`] for details.
     pub async fn timeout_get(&self, timeout: Option<Duration>) -> Result<Object<T>, PoolError> {
         let inner = self.inner.as_ref();
+        // From here on the caller is accounted for in `available`, which goes
+        // negative while callers are waiting (see `Pool::status()`). The
+        // guard takes the caller out again if it leaves without an object:
+        // on an error, a timeout or when this future is dropped.
+        let _ = inner.available.fetch_sub(1, Ordering::Relaxed);
+        let waiting = WaitingGuard(&inner.available);
         let permit = match (timeout, inner.config.runtime) {
             (None, _) => inner
                 .semaphore
@@ -257,7 +263,8 @@ impl<T> Pool<T> {
         #[cfg(deadpool_verif)]
         crate::verif::point("uget.popped");
         permit.forget();
-        let _ = inner.available.fetch_sub(1, Ordering::Relaxed);
+        // The object is taken: the decrement made above stays in effect.
+        std::mem::forget(waiting);
         Ok(Object {
             pool: Arc::downgrade(&self.inner),
             obj: Some(obj),
@@ -398,6 +405,16 @@ impl<T> Pool<T> {
                 0
             },
         }
+    }
+}
+
+/// Takes a caller of [`Pool::timeout_get()`] out of the `available` count
+/// again when it leaves without an [`Object`].
+struct WaitingGuard<'a>(&'a AtomicIsize);
+
+impl Drop for WaitingGuard<'_> {
+    fn drop(&mut self) {
+        let _ = self.0.fetch_add(1, Ordering::Relaxed);
     }
 }
 
